@@ -1,161 +1,11 @@
 import MaltModel.Conv.NoNative
 import MaltModel.Conv.CallTrees
 import MaltModel.Proofs.C04Passes
+import MaltModel.Proofs.C04Calls
+import MaltModel.Proofs.C04Sound
+import MaltModel.Conv.Directives
 namespace Malt.C04
 open Malt.Py Malt.Conv Malt.Conv.NoNative
-
-mutual
-theorem soundE (cfg : Cfg) (sc : List String) (w : Bool) :
-    ∀ (e : Expr) (pos : Pos), offE cfg sc w pos e = [] → OkE cfg sc w pos e
-  | .name .., _, _ => .name
-  | .const .., _, _ => .const
-  | .noneMarker, _, _ => .noneMarker
-  | .call i f as ks, pos, h => by
-      simp only [offE, List.append_eq_nil_iff] at h
-      obtain ⟨⟨⟨h1, h2⟩, h3⟩, h4⟩ := h
-      have hc : callOk cfg sc w pos f as ks = true := by
-        by_cases hh : callOk cfg sc w pos f as ks = true
-        · exact hh
-        · simp [hh] at h1
-      exact .call hc (soundE cfg sc w f _ h2) (soundEs cfg sc w as _ h3) (soundEs cfg sc w ks _ h4)
-  | .boolop .., _, h => by simp [offE] at h
-  | .ifexp .., _, h => by simp [offE] at h
-  | .unary i op e, pos, h => by
-      simp only [offE, List.append_eq_nil_iff] at h
-      obtain ⟨h1, h2⟩ := h
-      have hn : op ≠ "Not" := by
-        intro hh; simp [hh] at h1
-      exact .unary hn (soundE cfg sc w e _ h2)
-  | .compare i l ops rs, pos, h => by
-      simp only [offE, List.append_eq_nil_iff] at h
-      obtain ⟨⟨h1, h2⟩, h3⟩ := h
-      have hc : compareOk cfg ops = true := by
-        by_cases hh : compareOk cfg ops = true
-        · exact hh
-        · simp [hh] at h1
-      exact .compare hc (soundE cfg sc w l _ h2) (soundEs cfg sc w rs _ h3)
-  | .binop i op l r, pos, h => by
-      simp only [offE, List.append_eq_nil_iff] at h
-      exact .binop (soundE cfg sc w l _ h.1) (soundE cfg sc w r _ h.2)
-  | .attr i v a c, pos, h => by
-      simp only [offE] at h
-      exact .attr (soundE cfg sc w v _ h)
-  | .subscript i v s c, pos, h => by
-      simp only [offE, List.append_eq_nil_iff] at h
-      exact .subscript (soundE cfg sc w v _ h.1) (soundE cfg sc w s _ h.2)
-  | .keyword i a hh v, pos, h => by
-      simp only [offE] at h
-      exact .keyword (soundE cfg sc w v _ h)
-  | .lambda i as b, pos, h => by
-      simp only [offE, List.append_eq_nil_iff] at h
-      exact .lambda (soundE cfg sc w as _ h.1) (soundE cfg sc w b _ h.2)
-  | .seq i k es c, pos, h => by
-      simp only [offE] at h
-      exact .seq (soundEs cfg sc w es _ h)
-  | .starred i v c, pos, h => by
-      simp only [offE] at h
-      exact .starred (soundE cfg sc w v _ h)
-  | .namedexpr i t v, pos, h => by
-      simp only [offE, List.append_eq_nil_iff] at h
-      exact .namedexpr (soundE cfg sc w t _ h.1) (soundE cfg sc w v _ h.2)
-  | .comp i k es gs, pos, h => by
-      simp only [offE, List.append_eq_nil_iff] at h
-      exact .comp (soundEs cfg sc w es _ h.1) (soundEs cfg sc w gs _ h.2)
-  | .comprehension i t it ifs a, pos, h => by
-      simp only [offE, List.append_eq_nil_iff] at h
-      exact .comprehension (soundE cfg sc w t _ h.1.1) (soundE cfg sc w it _ h.1.2) (soundEs cfg sc w ifs _ h.2)
-  | .arguments i a b c d e f g, pos, h => by
-      simp only [offE, List.append_eq_nil_iff] at h
-      obtain ⟨⟨⟨⟨⟨⟨h1, h2⟩, h3⟩, h4⟩, h5⟩, h6⟩, h7⟩ := h
-      exact .arguments (soundEs cfg sc w a _ h1) (soundEs cfg sc w b _ h2) (soundEs cfg sc w c _ h3)
-        (soundEs cfg sc w d _ h4) (soundEs cfg sc w e _ h5) (soundEs cfg sc w f _ h6) (soundEs cfg sc w g _ h7)
-  | .arg i n an, pos, h => by
-      simp only [offE] at h
-      exact .arg (soundEs cfg sc w an _ h)
-  | .withitem i c v, pos, h => by
-      simp only [offE, List.append_eq_nil_iff] at h
-      exact .withitem (soundE cfg sc w c _ h.1) (soundEs cfg sc w v _ h.2)
-  | .other i k ats ks, pos, h => by
-      simp only [offE] at h
-      exact .other (soundEs cfg sc w ks _ h)
-theorem soundEs (cfg : Cfg) (sc : List String) (w : Bool) :
-    ∀ (es : List Expr) (ps : List Pos), offEs cfg sc w ps es = [] → OkEs cfg sc w ps es
-  | [], _, _ => .nil
-  | e :: es, ps, h => by
-      simp only [offEs, List.append_eq_nil_iff] at h
-      exact .cons (soundE cfg sc w e _ h.1) (soundEs cfg sc w es _ h.2)
-end
-
-mutual
-theorem soundS (cfg : Cfg) :
-    ∀ (s : Stmt) (sc roles : List String) (tail : Bool), offS cfg sc roles tail s = [] → OkS cfg sc roles tail s
-  | .if_ .., _, _, _, h => by simp [offS] at h
-  | .while_ .., _, _, _, h => by simp [offS] at h
-  | .for_ .., _, _, _, h => by simp [offS] at h
-  | .break_ .., _, _, _, h => by simp [offS] at h
-  | .continue_ .., _, _, _, h => by simp [offS] at h
-  | .ret i v, sc, roles, tail, h => by
-      simp only [offS, List.append_eq_nil_iff] at h
-      obtain ⟨h1, h2⟩ := h
-      cases tail with
-      | false => simp at h1
-      | true => exact .ret (soundEs cfg sc false v _ h2)
-  | .functionDef i n as b ds rs isA, sc, roles, tail, h => by
-      simp only [offS, List.append_eq_nil_iff] at h
-      obtain ⟨⟨⟨h1, h2⟩, h3⟩, h4⟩ := h
-      exact .functionDef (soundE cfg sc false as _ h1) (soundEs cfg sc false ds _ h2) (soundEs cfg sc false rs _ h3)
-        (soundB cfg b _ _ _ h4)
-  | .classDef i n bs ks b ds, sc, roles, tail, h => by
-      simp only [offS, List.append_eq_nil_iff] at h
-      obtain ⟨⟨⟨h1, h2⟩, h3⟩, h4⟩ := h
-      exact .classDef (soundEs cfg sc false bs _ h1) (soundEs cfg sc false ks _ h2) (soundEs cfg sc false ds _ h3)
-        (soundB cfg b _ _ _ h4)
-  | .with_ i its b isA, sc, roles, tail, h => by
-      simp only [offS, List.append_eq_nil_iff] at h
-      exact .with_ (soundEs cfg sc true its _ h.1) (soundB cfg b _ _ _ h.2)
-  | .try_ i b hs e f, sc, roles, tail, h => by
-      simp only [offS, List.append_eq_nil_iff] at h
-      obtain ⟨⟨⟨h1, h2⟩, h3⟩, h4⟩ := h
-      exact .try_ (soundB cfg b _ _ _ h1) (soundB cfg hs _ _ _ h2) (soundB cfg e _ _ _ h3) (soundB cfg f _ _ _ h4)
-  | .handler i t n b, sc, roles, tail, h => by
-      simp only [offS, List.append_eq_nil_iff] at h
-      exact .handler (soundEs cfg sc false t _ h.1) (soundB cfg b _ _ _ h.2)
-  | .delete i ts, sc, roles, tail, h => by
-      simp only [offS] at h
-      exact .delete (soundEs cfg sc false ts _ h)
-  | .assign i ts v, sc, roles, tail, h => by
-      simp only [offS, List.append_eq_nil_iff] at h
-      exact .assign (soundEs cfg sc false ts _ h.1) (soundE cfg sc false v _ h.2)
-  | .augAssign i t op v, sc, roles, tail, h => by
-      simp only [offS, List.append_eq_nil_iff] at h
-      exact .augAssign (soundE cfg sc false t _ h.1) (soundE cfg sc false v _ h.2)
-  | .annAssign i t an v s, sc, roles, tail, h => by
-      simp only [offS, List.append_eq_nil_iff] at h
-      exact .annAssign (soundE cfg sc false t _ h.1.1) (soundE cfg sc false an _ h.1.2) (soundEs cfg sc false v _ h.2)
-  | .raise i e c, sc, roles, tail, h => by
-      simp only [offS, List.append_eq_nil_iff] at h
-      exact .raise (soundEs cfg sc false e _ h.1) (soundEs cfg sc false c _ h.2)
-  | .assert_ i t m, sc, roles, tail, h => by
-      simp only [offS, List.append_eq_nil_iff] at h
-      exact .assert_ (soundE cfg sc false t _ h.1) (soundEs cfg sc false m _ h.2)
-  | .expr i v, sc, roles, tail, h => by
-      simp only [offS] at h
-      exact .expr (soundE cfg sc false v _ h)
-  | .import_ .., _, _, _, _ => .import_
-  | .importFrom .., _, _, _, _ => .importFrom
-  | .global .., _, _, _, _ => .global
-  | .nonlocal .., _, _, _, _ => .nonlocal
-  | .pass .., _, _, _, _ => .pass
-  | .other i k es bs, sc, roles, tail, h => by
-      simp only [offS, List.append_eq_nil_iff] at h
-      exact .other (soundEs cfg sc false es _ h.1) (soundB cfg bs _ _ _ h.2)
-theorem soundB (cfg : Cfg) :
-    ∀ (ss : List Stmt) (sc roles : List String) (tail : Bool), offB cfg sc roles tail ss = [] → OkB cfg sc roles tail ss
-  | [], _, _, _, _ => .nil
-  | s :: ss, sc, roles, tail, h => by
-      simp only [offB, List.append_eq_nil_iff] at h
-      exact .cons (soundS cfg s _ _ _ h.1) (soundB cfg ss _ _ _ h.2)
-end
 
 /-- **The verified checker.**  If `noNative` accepts the (real) output of the conversion, then every
 overloadable construct in it is routed through its operator: the tree satisfies `NoNativeProp`, which has
@@ -168,6 +18,30 @@ theorem noNative_sound (cfg : Cfg) (g : List Stmt) (h : noNative cfg g = true) :
 theorem noNativeE_sound (cfg : Cfg) (e : Expr) (h : noNativeE cfg e = true) : OkE cfg [] false .normal e := by
   unfold noNativeE at h
   exact soundE cfg [] false e _ (List.isEmpty_iff.mp h)
+
+/-- `def f(a): with ag__.FunctionScope('f', 'fscope', ag__.STD) as fscope: return fscope.ret(ag__.converted_call(ag__.ld(g), (ag__.ld(a),) + tuple(ag__.ld(b)), None, fscope), True)` -/
+def routedWitness : Stmt :=
+  .functionDef 0 "f" (.arguments 0 [] [.arg 0 "a" []] [] [] [] [] [])
+    [.with_ 0 [.withitem 0 (.call 0 (ag "FunctionScope") [.const 0 "str" "'f'", .const 0 "str" "'fscope'", ag "STD"] [])
+        [.name 0 "fscope" .store]]
+      [.ret 0 [.call 0 (.attr 0 (nm "fscope") "ret" .load)
+        [.call 0 (ag "converted_call")
+          [.call 0 (ag "ld") [nm "g"] [],
+           .binop 0 "Add" (.seq 0 .tuple [.call 0 (ag "ld") [nm "a"] []] .load) (.call 0 (nm "tuple") [.call 0 (ag "ld") [nm "b"] []] []),
+           noneConst, nm "fscope"] [],
+         .const 0 "bool" "True"] []]] false] [] [] false
+
+-- the checker accepts routed code and the property follows; it rejects each native construct
+example : NoNativeProp ⟨false, false⟩ [routedWitness] := noNative_sound _ _ (by decide)
+example : noNative ⟨false, false⟩ [.if_ 1 (nm "c") [.pass 2] []] = false := by decide
+example : noNative ⟨false, false⟩ [.expr 1 (.call 2 (nm "g") [] [])] = false := by decide
+example : noNative ⟨false, false⟩ [.expr 1 (.call 2 (nm "print") [] [])] = true := by decide       -- E4
+example : noNative ⟨false, true⟩ [.expr 1 (.call 2 (nm "print") [] [])] = false := by decide
+example : noNative ⟨false, false⟩ [.with_ 1 [.withitem 2 (.call 3 (nm "cm") [] []) []] [.pass 4] false] = true := by decide  -- E2
+example : noNative ⟨false, false⟩ [.functionDef 1 "g" noArgs [.if_ 2 (nm "c") [] [], .ret 3 []] [] [] false] = false := by decide
+example : noNative ⟨false, false⟩ [.functionDef 1 "g" noArgs [.ret 3 [], .pass 4] [] [] false] = false := by decide   -- early return
+example : noNative ⟨true, false⟩ [.expr 1 (.compare 2 (nm "a") ["Eq"] [nm "b"])] = false := by decide
+example : noNative ⟨false, false⟩ [.expr 1 (.compare 2 (nm "a") ["Eq"] [nm "b"])] = true := by decide
 
 /-! ## Theorems about the MODELS of the expression passes
 
@@ -351,7 +225,7 @@ private theorem undefAssigns_free {p : Expr → Bool} (K : KindPred p) :
   | [] => by simp [Variables.undefAssigns, anyB]
   | t :: ts => by
       have := undefAssigns_free K ts
-      cases t <;> simp [Variables.undefAssigns, Variables.undefAssign, anyB, anyB_append, this]
+      cases t <;> simp [Variables.undefAssigns, Variables.undefAssign, anyB, this]
       have h0 := anyE_ag K "Undefined"
       simp only [anyE, orf] at h0
       simp [anyS, anyEs, anyE, anyKids, anyKidsL, K.name, K.call, K.const, h0.1, h0.2]
@@ -398,5 +272,92 @@ theorem C04_expr_passes_compose_partial (eqOn : Bool) (r : Nat → String) (o : 
     anyB isIfExp (Variables.visitB o (Logical.visitB eqOn (IfExp.visitB r g))) = false :=
   ⟨variables_keeps_free (kindPred_nativeLogical eqOn) o _ (C04_logical_routed eqOn _),
    variables_keeps_free kindPred_isIfExp o _ (logical_keeps_ifexp_free eqOn _ (C04_ifexp_routed_partial r g h))⟩
+
+/-! ### calls -/
+
+/- Full statement (FALSE for the pinned `call_trees.visit_FunctionDef`, which visits `defaults` and
+   `kw_defaults` but never the parameters themselves):
+
+     theorem C04_calls_routed (…) (b : List Stmt) : ∀ o ∈ offB cfg sc roles tail (CallTrees.visitB env ctx b), o.kind ≠ "Call"
+
+   Counterexample `C04_calls_routed_counterexample`: `def g(p: h(1)): pass` — the call in the parameter
+   annotation stays native.  Known finding C04-param-annotation-call, class `call_in_parameter_annotation`. -/
+
+/-- **C04 for calls** (`call_trees`), partial: run the CHECKER `offB` (the one that runs on the real
+`to_code` output, with all its exceptions: with-items, `ag__.*`, scope objects, debugger entry, `print`
+without BUILTIN_FUNCTIONS, the argument packing of `converted_call`) on the output of the call_trees model:
+it reports no native call — for every block, in every syntactic context — provided no parameter of a
+nested `def` is annotated.  `sc` is any set of scope names containing the current function context and
+every `function_context_name` annotation. -/
+theorem C04_calls_routed_partial (env : CallTrees.Env) (cfg : Cfg) (hb : cfg.builtinsOn = env.builtinsOn)
+    (sc : List String) (hsc : ∀ i c, env.ctxOf i = some c → c ∈ sc) (ctx : String) (hctx : ctx ∈ sc)
+    (b : List Stmt) (hp : CallTrees.plainParamsB b = true) (roles : List String) (tail : Bool) :
+    ∀ o ∈ offB cfg sc roles tail (CallTrees.visitB env ctx b), o.kind ≠ "Call" :=
+  visitB_CF env cfg hb b sc ctx roles tail hsc hctx hp
+
+/-- Expressions (incl. lambda bodies, comprehension elements and clauses, f-strings, subscripts, starred
+and keyword arguments, operands of other operators): unconditional. -/
+theorem C04_calls_routed_expr (env : CallTrees.Env) (cfg : Cfg) (hb : cfg.builtinsOn = env.builtinsOn)
+    (sc : List String) (hsc : ∀ i c, env.ctxOf i = some c → c ∈ sc) (ctx : String) (hctx : ctx ∈ sc)
+    (e : Expr) (w : Bool) (pos : Pos) :
+    ∀ o ∈ offE cfg sc w pos (CallTrees.visitE env ctx e), o.kind ≠ "Call" :=
+  visitE_CF env cfg hb e sc ctx w pos hsc hctx
+
+/-- `def g(p: h(1)): pass` inside a function whose context is `fscope` -/
+def paramAnnotationWitness : Stmt :=
+  .functionDef 1 "g" (.arguments 2 [] [.arg 3 "p" [.call 4 (.name 5 "h" .load) [.const 6 "int" "1"] []]] [] [] [] [] [])
+    [.pass 7] [] [] false
+
+def witnessEnv : CallTrees.Env := { ctxOf := fun i => if i == 1 then some "fscope_1" else none, builtinsOn := false }
+
+theorem C04_calls_routed_counterexample :
+    ∃ o ∈ offB ⟨false, false⟩ ["fscope", "fscope_1"] [] false (CallTrees.visitB witnessEnv "fscope" [paramAnnotationWitness]),
+      o.kind = "Call" := by
+  refine ⟨⟨"Call", 4, "h"⟩, ?_, rfl⟩
+  decide
+
+example : CallTrees.plainParamsB [paramAnnotationWitness] = false := by decide
+-- hypotheses satisfiable by a non-trivial instance: `def g(p, q=h(1)): return k(*a, b, **c)`
+example : CallTrees.plainParamsB [.functionDef 1 "g"
+    (.arguments 2 [] [.arg 3 "p" [], .arg 4 "q" []] [] [] [] [] [.call 5 (.name 6 "h" .load) [.const 7 "int" "1"] []])
+    [.ret 8 [.call 9 (.name 10 "k" .load) [.starred 11 (.name 12 "a" .load) .load, .name 13 "b" .load]
+      [.keyword 14 "" false (.name 15 "c" .load)]]] [] [] false] = true := by decide
+
+/-- what `k(*a, b, **c)` becomes -/
+example : CallTrees.visitE witnessEnv "fscope"
+    (.call 9 (.name 10 "k" .load) [.starred 11 (.name 12 "a" .load) .load, .name 13 "b" .load] [.keyword 14 "" false (.name 15 "c" .load)])
+    = .call 0 (ag "converted_call") [.name 10 "k" .load,
+        .binop 0 "Add" (.call 0 (nm "tuple") [.name 12 "a" .load] []) (.seq 0 .tuple [.name 13 "b" .load] .load),
+        .call 0 (nm "dict") [] [.keyword 14 "" false (.name 15 "c" .load)], nm "fscope"] [] := by
+  rfl
+
+/-- **Pipeline-order hole (known finding C04-directive-arg-call)**: the directives converter runs BEFORE
+call_trees and moves the argument nodes of `set_loop_options(...)` out of the tree into the loop's
+DIRECTIVES annotation; call_trees never sees them and control_flow re-emits them verbatim in the loop
+options.  On the models: after `Directives.run` the call `tr(5)` is in the annotation, not in the tree. -/
+def directiveWitness : Stmt :=
+  .functionDef 1 "f" (.arguments 2 [] [] [] [] [] [] [])
+    [.for_ 3 (.name 4 "i" .store) (.name 5 "it" .load)
+      [.expr 6 (.call 7 (.name 8 "set_loop_options" .load) []
+          [.keyword 9 "maximum_iterations" true (.call 10 (.name 11 "tr" .load) [.const 12 "int" "5"] [])]),
+       .assign 13 [.name 14 "x" .store] (.name 15 "i" .load)] [] [] false] [] [] false
+
+def directiveEnv : Directives.Env :=
+  { staticOf := fun i => if i == 8 then some "set_loop_options" else none, origDefs := fun _ => none }
+
+def isCallNode : Expr → Bool
+  | .call .. => true
+  | _ => false
+
+/-- tree has no call left ∧ exactly one DIRECTIVES entry, on loop 3, whose argument contains the call -/
+def directiveBypass : Bool :=
+  match Directives.run directiveEnv directiveWitness with
+  | .ok (tree, st) =>
+      !anyB isCallNode tree && st.annos.length == 1 &&
+        st.annos.all fun a => a.1 == 3 && a.2.1 == "set_loop_options" &&
+          a.2.2.all fun kv => kv.1 == "maximum_iterations" && anyE isCallNode kv.2
+  | .error _ => false
+
+theorem C04_directive_args_bypass_calltrees : directiveBypass = true := by decide
 
 end Malt.C04
